@@ -9,6 +9,7 @@ set_option linter.unusedSimpArgs false
 namespace ExprModel.Refine
 open ExprModel
 open ExprModel.Spec
+open ExprModel.Spec.SML
 
 variable {c : Cfg} {P : LProg} {ctx : Ctx}
 
@@ -38,6 +39,32 @@ theorem eval_bi_map (sc : SCfg) (m : Meta) (a b : Node) : eval sc ctx (.builtin 
   rw [raw]
   congr 1; funext coll; congr 1; funext n; congr 1; funext r; cases r <;> rfl
 
+def postMap : Nat → List Val → Val → SM (List Val ⊕ Val) := fun _ acc r => pure (.inl (r :: acc))
+
+theorem fbMap_post (sc : SCfg) (b : Node) (coll : Val) (i : Nat) (acc : List Val) :
+    fbMap sc ctx b coll i acc = (eval sc ((coll, (i : Int)) :: ctx) b >>= postMap i acc) := rfl
+
+theorem raisedAt_pure {α : Type} (l : Loc) (a : α) : raisedAt l (pure a : SM α) = pure a := rfl
+
+theorem evalLoc_bi_map (sc : SCfg) (m : Meta) (a b : Node) : evalLoc sc ctx (.builtin m "map" [a, b]) = (do
+    let coll ← evalLoc sc ctx a
+    let n ← raisedAt m.loc (SM.lift (lengthV coll))
+    let r ← loopIdxL (fbLoc sc ctx b m.loc postMap coll) n.toNat 0 ([] : List Val)
+    raisedAt m.loc (epiOf (fun acc => do
+      SM.allocAfter sc.budget n acc.length
+      pure (.arr .iface acc.reverse)) r)) := by
+  have raw : evalLoc sc ctx (.builtin m "map" [a, b]) = (do
+      let coll ← evalLoc sc ctx a
+      let n ← raisedAt m.loc (SM.lift (lengthV coll))
+      let r ← loopIdxL (fbLoc sc ctx b m.loc postMap coll) n.toNat 0 ([] : List Val)
+      raisedAt m.loc (match r with
+        | .inl acc => do
+          SM.allocAfter sc.budget n acc.length
+          pure (.arr .iface acc.reverse)
+        | .inr v => pure v)) := rfl
+  rw [raw]
+  congr 1; funext coll; congr 1; funext n; congr 1; funext r; congr 1; cases r <;> rfl
+
 theorem fbMap_no_exit {sc : SCfg} {b : Node} {coll : Val} {i : Nat} {acc : List Val} {σ0 σ : SState} {v : Val}
     (h : fbMap sc ctx b coll i acc σ0 = (.ok (.inr v), σ)) : False := by
   unfold fbMap at h
@@ -63,27 +90,27 @@ theorem array_epi {l : Loc} {op : Op} {kk : Nat} {key : String} (hop : op = .loa
   exact this.to_ip (by ip_arith)
 
 theorem sim_bi_map {m : Meta} {a b : Node} {ca cb : List LInstr} {ci cs car c0 : Nat}
-    (ha : Sim c P ctx a ca) (hb : ∀ ctx', Sim c P ctx' b cb) (hsmall : SmallColl c a) (hK : LoopK P.consts ci cs car c0)
-    (hbl : BlameOK c P (.builtin m "map" [a, b])) :
+    (ha : Sim c P ctx a ca) (hb : ∀ ctx', Sim c P ctx' b cb) (hsmall : SmallColl c a) (hK : LoopK P.consts ci cs car c0) :
     Sim c P ctx (.builtin m "map" [a, b])
       (ca ++ [li m.loc .begin_] ++ emitLoop m.loc ci cs car c0 cb ++ [li m.loc .load cs, li m.loc .end_, li m.loc .array]) := by
   refine sim_loop m.loc (fbMap (specOf c) ctx b)
     (fun n acc => do
       SM.allocAfter (specOf c).budget n acc.length
       pure (.arr .iface acc.reverse)) ([] : List Val) (fun acc => acc)
-    (fun _ j acc => acc.length = j) (eval_bi_map _ m a b) ha hsmall hK hbl rfl (fun _ _ _ _ _ _ h => h) ?_ ?_ ?_
+    (fun _ j acc => acc.length = j) (fun _ => postMap) (fun coll i acc => fbMap_post _ b coll i acc) (eval_bi_map _ m a b) (evalLoc_bi_map _ m a b) ha hsmall hK rfl (fun _ _ _ _ _ _ h => h) ?_ ?_ ?_
     (fun k st scs σ sc' v h hex => by obtain ⟨_, _, _, _, h⟩ := hex; exact (fbMap_no_exit h).elim)
   · intro k st scs σ coll h
     refine ⟨[], rfl, ?_⟩
     as_runs
     exact Runs.begin_ h ((Reach.refl _).to_ip (by ip_arith))
-  · intro coll N k0 st scs hle hN i acc σ res σ1 sc hiN hbase hex hfb hbr
+  · intro coll N k0 st scs hle hN i acc σ res σ1 sc hiN hbase hex hfb hBL
     have hbody := loopCode_body hle
     unfold fbMap at hfb
     unfold BodyPost
+    unfold fbLoc at hBL
     rcases SM.bind_cases hfb with ⟨e, hxe, rfl⟩ | ⟨x, σ2, hxv, hrest⟩
-    · exact hb _ _ (acc ++ st) (sc :: scs) σ _ _ hbody (hbase.scopesOK ctx scs) hxe
-    · have r1 : Reach c P _ _ := hb _ _ (acc ++ st) (sc :: scs) σ _ _ hbody (hbase.scopesOK ctx scs) hxv
+    · exact hb _ _ (acc ++ st) (sc :: scs) σ _ _ hbody (hbase.scopesOK ctx scs) hxe hBL.left
+    · have r1 : Reach c P _ _ := hb _ _ (acc ++ st) (sc :: scs) σ _ _ hbody (hbase.scopesOK ctx scs) hxv hBL.left
       simp only [SM.pure_apply, Prod.mk.injEq] at hrest
       obtain ⟨rfl, rfl⟩ := hrest
       exact ⟨sc, hbase, by simp [hex], r1⟩
@@ -119,6 +146,34 @@ theorem eval_bi_filter (sc : SCfg) (m : Meta) (a b : Node) : eval sc ctx (.built
   rw [raw]
   congr 1; funext coll; congr 1; funext n; congr 1; funext r; cases r <;> rfl
 
+def postFilter (coll : Val) : Nat → List Val → Val → SM (List Val ⊕ Val) := fun i acc x => do
+  if ← asBool x then do
+    let el ← SM.lift (fetchV coll (.int .int i) false)
+    pure (.inl (el :: acc))
+  else pure (.inl acc)
+
+theorem fbFilter_post (sc : SCfg) (b : Node) (coll : Val) (i : Nat) (acc : List Val) :
+    fbFilter sc ctx b coll i acc = (eval sc ((coll, (i : Int)) :: ctx) b >>= postFilter coll i acc) := rfl
+
+theorem evalLoc_bi_filter (sc : SCfg) (m : Meta) (a b : Node) : evalLoc sc ctx (.builtin m "filter" [a, b]) = (do
+    let coll ← evalLoc sc ctx a
+    let n ← raisedAt m.loc (SM.lift (lengthV coll))
+    let r ← loopIdxL (fbLoc sc ctx b m.loc (postFilter coll) coll) n.toNat 0 ([] : List Val)
+    raisedAt m.loc (epiOf (fun acc => do
+      SM.allocAfter sc.budget acc.length acc.length
+      pure (.arr .iface acc.reverse)) r)) := by
+  have raw : evalLoc sc ctx (.builtin m "filter" [a, b]) = (do
+      let coll ← evalLoc sc ctx a
+      let n ← raisedAt m.loc (SM.lift (lengthV coll))
+      let r ← loopIdxL (fbLoc sc ctx b m.loc (postFilter coll) coll) n.toNat 0 ([] : List Val)
+      raisedAt m.loc (match r with
+        | .inl acc => do
+          SM.allocAfter sc.budget acc.length acc.length
+          pure (.arr .iface acc.reverse)
+        | .inr v => pure v)) := rfl
+  rw [raw]
+  congr 1; funext coll; congr 1; funext n; congr 1; funext r; congr 1; cases r <;> rfl
+
 theorem fbFilter_no_exit {sc : SCfg} {b : Node} {coll : Val} {i : Nat} {acc : List Val} {σ0 σ : SState} {v : Val}
     (h : fbFilter sc ctx b coll i acc σ0 = (.ok (.inr v), σ)) : False := by
   unfold fbFilter at h
@@ -139,7 +194,7 @@ def KeptIs (sc : Scope) (j : Nat) (acc : List Val) : Prop :=
 
 theorem sim_bi_filter {m : Meta} {a b : Node} {ca cb : List LInstr} {ci cs car c0 cc : Nat}
     (ha : Sim c P ctx a ca) (hb : ∀ ctx', Sim c P ctx' b cb) (hsmall : SmallColl c a) (hK : LoopK P.consts ci cs car c0)
-    (hcc : P.consts[cc]? = some (.str "count")) (hbl : BlameOK c P (.builtin m "filter" [a, b])) :
+    (hcc : P.consts[cc]? = some (.str "count")) :
     Sim c P ctx (.builtin m "filter" [a, b])
       (ca ++ [li m.loc .begin_, li m.loc .push c0, li m.loc .store cc] ++
         emitLoop m.loc ci cs car c0
@@ -149,7 +204,7 @@ theorem sim_bi_filter {m : Meta} {a b : Node} {ca cb : List LInstr} {ci cs car c
     (fun _ acc => do
       SM.allocAfter (specOf c).budget acc.length acc.length
       pure (.arr .iface acc.reverse)) ([] : List Val) (fun acc => acc)
-    KeptIs (eval_bi_filter _ m a b) ha hsmall hK hbl rfl ?_ ?_ ?_ ?_
+    KeptIs postFilter (fun coll i acc => fbFilter_post _ b coll i acc) (eval_bi_filter _ m a b) (evalLoc_bi_filter _ m a b) ha hsmall hK rfl ?_ ?_ ?_ ?_
     (fun k st scs σ sc' v h hex => by obtain ⟨_, _, _, _, h⟩ := hex; exact (fbFilter_no_exit h).elim)
   · intro sc j acc key v hk h
     refine ⟨?_, h.2⟩
@@ -159,7 +214,7 @@ theorem sim_bi_filter {m : Meta} {a b : Node} {ca cb : List LInstr} {ci cs car c
     refine ⟨scopeSet "count" (.int .int 0) [], ⟨lookup_set_same _ _ _, Nat.le_refl _⟩, ?_⟩
     as_runs
     exact Runs.begin_ h (Runs.push h.tail1 hK.zero (Runs.store h.tail1.tail3 hcc ((Reach.refl _).to_ip (by ip_arith))))
-  · intro coll N k0 st scs hle hN i acc σ res σ1 sc hiN hbase hex hfb hbr
+  · intro coll N k0 st scs hle hN i acc σ res σ1 sc hiN hbase hex hfb hBL
     have hbody := loopCode_body hle
     have hcond : CodeAt P (k0 + 24 + lsize cb)
         ([li m.loc .jumpIfFalse (1 + lsize [li m.loc .inc cc, li m.loc .load car, li m.loc .load ci, li m.loc .index] + 3),
@@ -171,9 +226,11 @@ theorem sim_bi_filter {m : Meta} {a b : Node} {ca cb : List LInstr} {ci cs car c
     have hjmp : CodeAt P (k0 + 24 + lsize cb + 14) [li m.loc .jump 1, li m.loc .pop] := hcond.right.cast (by ip_arith)
     unfold fbFilter at hfb
     unfold BodyPost
+    unfold fbLoc at hBL
     rcases SM.bind_cases hfb with ⟨e, hxe, rfl⟩ | ⟨x, σ2, hxv, hrest⟩
-    · exact hb _ _ (acc ++ st) (sc :: scs) σ _ _ hbody.left (hbase.scopesOK ctx scs) hxe
-    · have r1 : Reach c P _ _ := hb _ _ (acc ++ st) (sc :: scs) σ _ _ hbody.left (hbase.scopesOK ctx scs) hxv
+    · exact hb _ _ (acc ++ st) (sc :: scs) σ _ _ hbody.left (hbase.scopesOK ctx scs) hxe hBL.left
+    · have r1 : Reach c P _ _ := hb _ _ (acc ++ st) (sc :: scs) σ _ _ hbody.left (hbase.scopesOK ctx scs) hxv hBL.left
+      have hbr : RBlame P m.loc res := (hBL.right (evalLoc_of_ok hxv)).raised hrest
       by_cases hbv : ∃ t, x = .bool t
       · obtain ⟨t, rfl⟩ := hbv
         rw [asBool_bool, SM.bind_apply, SM.pure_apply] at hrest
